@@ -65,9 +65,14 @@ Theorem c07_cost_linear_jsonplus_split : forall data at_eof, CJson.cost_split da
 Proof. exact PJson.cost_split_linear. Qed.
 (* ... but every token re-scans the window: a document held in one window costs at most
    (tokens + 1) * (5 * window + 6); with the whole document as the window this is quadratic, and
-   that quadratic growth is attained (c07_jsonplus_window_rescan_refuted when present).  The real
+   that quadratic growth is attained (c07_jsonplus_window_rescan_refuted below).  The real
    scanner's window is its buffer (4096 bytes, doubled only for a single token that does not fit),
    so the reader is linear in the input with a constant proportional to max(4096, 2 * longest token). *)
 Theorem c07_cost_jsonplus_strip_window : forall d, CJson.cost_strip d <= (lenN d + 2) * (5 * lenN d + 6).
 Proof. exact PJson.cost_strip_bound. Qed.
+(* the per-token rescan is attained: with the whole document as the window no linear bound holds
+   (family: m line comments, cost >= 3m(m+1)/2 on 3m bytes -- the apostrophe marker is searched
+   through the whole remaining window for every token) *)
+Theorem c07_jsonplus_window_rescan_refuted : forall k : N, exists d, wf_bytes d /\ CJson.cost_strip d > k * lenN d.
+Proof. exact PJson.cost_strip_quadratic_refuted. Qed.
 Close Scope N_scope.
